@@ -357,6 +357,9 @@ func runC08(c *Ctx) {
 	}
 	x.bt.Flush()
 
+	// ---- flags, flags-infer: every subset of the flags `--help` offers, judged by what is on disk afterwards (c08_cli.go)
+	x.flagStreams()
+
 	// ---- directed search around disagreements
 	if len(x.suspects) > 0 && !c.Replay {
 		n := 0
